@@ -79,6 +79,37 @@ def accepted(allrecs: list[Entry], mode: str, p: int, k: int | None = None, n: i
     raise ValueError(mode)
 
 
+def match_concatenation(got: list[int], per_file: list[list[list[Entry]]]) -> list[Entry] | None:
+    """Several files on one command line: the output is the concatenation of the per-file results.
+
+    per_file[i] = the result sequences the statement allows for file i (as returned by accepted()).  Returns the
+    concatenated entries of the first combination whose id sequence equals `got`, or None.  Ids restart at 0 in every
+    file, so the split points are searched (at most 2 alternatives per file)."""
+
+    def rec(pos: int, i: int) -> list[Entry] | None:
+        if i == len(per_file):
+            return [] if pos == len(got) else None
+        seen: list[list[int]] = []
+        for alt in per_file[i]:
+            ids = [e["id"] for e in alt]
+            if ids in seen:
+                continue
+            seen.append(ids)
+            if got[pos:pos + len(ids)] == ids:
+                rest = rec(pos + len(ids), i + 1)
+                if rest is not None:
+                    return list(alt) + rest
+        return None
+
+    return rec(0, 0)
+
+
+def clamp_leak_possible(lengths: list[int], n: int) -> bool:
+    """tail/head over several files: is there an earlier file shorter than both n and some later file?  (Only then does
+    "n lines of every file" differ from "n clamped by an earlier file".)"""
+    return any(lengths[i] < min(n, lengths[j]) for i in range(len(lengths)) for j in range(i + 1, len(lengths)))
+
+
 def n_condition(N: int, n: int) -> str:
     if n == 0:
         return "n-zero"
